@@ -438,6 +438,9 @@ func check(prop, tier string) int {
 	if prop == "C06" {
 		stallDefault = 30
 	}
+	if prop == "C18" {
+		stallDefault = 300 // a task set in the -race build with fresh-process baselines can take minutes on a loaded machine
+	}
 	stallLimit := time.Duration(envInt("IONSIM_STALL_S", stallDefault)) * time.Second
 	hangs := 0
 	gaveUp := false
